@@ -2155,6 +2155,75 @@ def _check_driver_misc():
     return None
 
 
+def _expected_facade(pkts, events):
+    """property text for one router: per function, arrival order, from the first receive call on; a transaction is one more
+    receiver of its function (it takes the head of the queue after its k router iterations)"""
+    opened, exp_q, arrivals, want = set(), {}, iter(pkts), []
+
+    def arrive():
+        a = next(arrivals, None)
+        if a is not None and a[2] in opened:
+            exp_q[a[2]].append(a)
+
+    def enc(a):
+        return [1, a[0], a[1], a[2], a[3], 0, len(a[4]), len(a[4])] + list(a[4])
+    for e in events:
+        if e[0] == 'P':
+            arrive()
+        elif e[0] == 'R':
+            fn = e[1]
+            if fn not in opened:
+                opened.add(fn)
+                exp_q[fn] = []
+            want.append([20, fn] + (enc(exp_q[fn].pop(0)) if exp_q[fn] else [0]))
+        elif e[0] == 'S':
+            fr = _frame_ref(e[1][0], e[1][1], e[1][2], e[1][3], 0, e[1][4])
+            want.append([21, 0, len(fr)] + list(fr))
+        elif e[0] == 'T':
+            fn = e[1][2]
+            fr = _frame_ref(e[1][0], e[1][1], fn, e[1][3], 0, e[1][4])
+            if fn not in opened:
+                opened.add(fn)
+                exp_q[fn] = []
+            for _ in range(e[2]):
+                arrive()
+            want.append([22, 0, len(fr)] + list(fr) + (enc(exp_q[fn].pop(0)) if exp_q[fn] else [0]))
+    return want, exp_q
+
+
+def _transaction_case(rng):
+    fs = rng.sample(FUNCTIONS, rng.choice([1, 2, 2, 3]))
+    n = rng.choice([1, 2, 3, 4, 6])
+    pkts = [[rng.choice(TARGETS), rng.choice(TARGETS), rng.choice(fs), rng.randrange(2), [k // 256, k % 256] + [rng.randrange(256)] * rng.randrange(0, 3)]
+            for k in range(n)]
+    events = [['R', f] for f in rng.sample(fs, rng.randrange(0, len(fs) + 1))]
+    for _ in range(rng.randrange(2, 2 * n + 5)):
+        k = rng.choice(['P', 'P', 'P', 'R', 'T', 'T', 'S'])
+        req = [3, rng.choice(TARGETS), rng.choice(fs), 0, [200, rng.randrange(256)]]
+        events.append({'P': ['P'], 'R': ['R', rng.choice(fs)], 'T': ['T', req, rng.randrange(0, 3)], 'S': ['S', req]}[k])
+    events += [['R', f] for f in fs for _ in range(2)]
+    L = sum(len(p[4]) + 4 for p in pkts)
+    return {'packets': pkts, 'cuts': list(_rand_cuts(rng, L, _bounds(pkts))), 'events': events}
+
+
+def _check_transactions(pkts, cuts, events):
+    """arrivals, receivePacket and makeTransaction mixed on one real CPX (router thread running): every packet that arrived for a
+    function after its queue existed is handed out exactly once, in arrival order, to that function's receivers; none is dropped"""
+    stream = b''.join(_frame_ref(a[0], a[1], a[2], a[3], 0, a[4]) for a in pkts)
+    out, obs, info = impl_cpx_session(_cut(stream, cuts), [], events)
+    want, exp_q = _expected_facade(pkts, events)
+    if info['stuck']:
+        return {'observed': 'router thread stuck', 'expected': 'session completes'}
+    if obs != want:
+        k = next((i for i, (x, y) in enumerate(zip(obs, want)) if x != y), min(len(obs), len(want)))
+        return {'observed': obs[k:k + 2], 'expected': want[k:k + 2], 'detail': 'observation no. %d of the session' % k}
+    for fn, q in exp_q.items():
+        have = [_key(p) for p in info['router']._rxQueues[fn].queue if p is not None]
+        if have != [[a[0], a[1], a[2], bool(a[3]), list(a[4])] for a in q]:
+            return {'observed': have[:3], 'expected': q[:3], 'detail': 'packets left queued for function %d' % fn}
+    return None
+
+
 def _backlog_case(rng, n, simple=False):
     """one router: n packets of function f arrive and stay unread (or are read slowly) while packets of g (read at once)
     and h (receiver registers late) arrive in between"""
@@ -2230,6 +2299,7 @@ def _check_backlog(pkts, cuts, events):
 
 
 _CHECKS = {
+    'transaction_loses_queued_packets': lambda c: _check_transactions(c['packets'], c['cuts'], c['events']),
     'encode_ignores_field_change': lambda c: _check_history(c['build'], c['ops']),
     'tcp_driver_session_violated': lambda c: _check_driver(c['items'], c['cuts'], c['takes'], c['events']),
     'tcp_driver_misc': lambda c: _check_driver_misc(),
@@ -2292,7 +2362,7 @@ def oracle(ctx, deep=False):
     def chk(cls, case):
         nonlocal n
         n += 1
-        if cls in seen and (not deep or cls in ('cpx_facade_violated', 'concurrent_writers_tear_frames', 'router_blocks_on_backlog', 'tcp_driver_session_violated', 'crtp_lost_at_connect')):     # (a failing facade session costs join timeouts)
+        if cls in seen and (not deep or cls in ('cpx_facade_violated', 'concurrent_writers_tear_frames', 'router_blocks_on_backlog', 'tcp_driver_session_violated', 'crtp_lost_at_connect', 'transaction_loses_queued_packets')):     # (a failing facade session costs join timeouts)
             return
         f = _run_check(cls, case)
         if f is not None:
@@ -2446,6 +2516,14 @@ def oracle(ctx, deep=False):
     for _ in range(ctx.scale(12, 200)):
         dc = _driver_case(rng)
         chk('crtp_lost_at_connect', dict(dc, early=rng.randrange(1, len(dc['items']) + 1)))
+    # 5f. transactions are receivers of their function: histories mixing arrivals, receivePacket and makeTransaction (smallest first)
+    a_, b_, c_ = [1, 3, 5, 0, [0, 0]], [1, 3, 5, 1, [0, 1]], [1, 3, 2, 0, [0, 2]]
+    req_ = [3, 1, 5, 0, [200, 1]]
+    chk('transaction_loses_queued_packets', {'packets': [a_, b_], 'cuts': [], 'events': [['R', 5], ['P'], ['T', req_, 1], ['R', 5]]})
+    chk('transaction_loses_queued_packets', {'packets': [a_, b_], 'cuts': [], 'events': [['R', 5], ['P'], ['P'], ['T', req_, 0], ['R', 5], ['R', 5]]})
+    chk('transaction_loses_queued_packets', {'packets': [a_, c_, b_], 'cuts': [3], 'events': [['R', 5], ['R', 2], ['P'], ['P'], ['T', req_, 1], ['R', 2], ['R', 5]]})
+    for _ in range(ctx.scale(120, 2000)):
+        chk('transaction_loses_queued_packets', _transaction_case(rng))
     # 5d. long unread backlog of one function on one router thread (smallest first)
     for n_b in (0, 10, 49, 50, 51, 52, 64, 100, 128, 200):
         chk('router_blocks_on_backlog', _backlog_case(rng, n_b, simple=True))
@@ -2491,7 +2569,32 @@ def oracle(ctx, deep=False):
                     'cases), router per-function FIFO, CRTP tunnel both ways through both drivers' % len(nontriv)}
 
 
+def _shrink_history(f):
+    """drop events (and trailing packets) one at a time while the history still fails"""
+    cls, case = f['class'], dict(f['case'])
+    best, changed, budget = f, True, 120
+    while changed and budget > 0:
+        changed = False
+        cands = []
+        evs, ps = case['events'], case['packets']
+        for i in range(len(evs)):
+            cands.append(dict(case, events=evs[:i] + evs[i + 1:], cuts=[]))
+        if len(ps) > 1:
+            cands.append(dict(case, packets=ps[:-1], cuts=[]))
+        if case.get('cuts'):
+            cands.append(dict(case, cuts=[]))
+        for c in cands:
+            budget -= 1
+            r = _run_check(cls, c)
+            if r is not None:
+                case, best, changed = dict(r['case']), r, True
+                break
+    return best
+
+
 def _shrink(f):
+    if f['class'] in ('transaction_loses_queued_packets', 'router_blocks_on_backlog') and len(f['case'].get('events', [])) < 60:
+        return _shrink_history(f)
     """greedy minimisation (fewer packets, shorter payloads, fewer cuts, shorter script)"""
     cls, case = f['class'], dict(f['case'])
     if cls not in ('stream_reassembly_mismatch', 'router_fifo_violated', 'rejected_frame_desyncs_stream', 'tunnel_downlink_changed'):
